@@ -126,6 +126,30 @@ let () =
          | _ -> print_endline "EVS 0");
         raise Exit
       end;
+      if !toks.(0) = "W" then begin
+        (* W <lang> <n> node*   ->   W <root_canon with every embedded tree accepted 0|1> *)
+        ignore (next ());
+        let lid = next_n () in
+        let n = next_int () in
+        let roots = rep n p_node in
+        (match get_table main_table lid, roots with
+         | Some l, [root] -> Printf.printf "W %d\n" (if root_canon l (fun _ _ -> true) root then 1 else 0)
+         | _ -> print_endline "W 0");
+        raise Exit
+      end;
+      if !toks.(0) = "K" then begin
+        (* clause mode:  K <events>   ->   K <first clause violated, every embedded tree accepted> <the same, none accepted>
+           (Model/XmlFrontCanonEvents.evs_clause; 0 = evs_canon holds).  For documents the C accepted: the nested parse
+           succeeded, and no clause looks inside an embedded tree, so the nested parse is answered with an empty tree. *)
+        ignore (next ());
+        let rec evs acc = if more () then evs (p_event () :: acc) else List.rev acc in
+        let events = evs [] in
+        let sub (_ : n list) = Inl { xt_lang = N0; xt_charset = N0; xt_roots = [] } in
+        let k1 = evs_clause main_table sub [n_of_int 60] (fun _ _ -> true) events in
+        let k2 = evs_clause main_table sub [n_of_int 60] (fun _ _ -> false) events in
+        Printf.printf "K %d %d\n" (int_of_n k1) (int_of_n k2);
+        raise Exit
+      end;
       if !toks.(0) = "R" then begin
         (* replay mode:  R <nsub> {<doc hex> <answer>}* <events>   ->   Q <error> <skip_lvl> <depth> <pending> <charset> <lang> <n> node* *)
         ignore (next ());
